@@ -52,6 +52,7 @@ class Grammar:
         self._first = {}
         self._nullable = {}
         self._edges = None
+        self.opaque = set()
 
     def body_expr(self, key):
         """the combinator expression a parser function applies to its input: `expr(input)` in tail position (or the whole body otherwise)."""
@@ -63,6 +64,10 @@ class Grammar:
             n = n["tail"]
         if n is not None and n["e"] == "call" and n["f"]["e"] == "call":
             return n["f"]
+        # a hand-written parser (statements before its combinator, e.g. a look-ahead guard that fails fast): what it costs to backtrack over it is
+        # not visible in a combinator tree — recorded, and not judged
+        if b.get("stmts"):
+            self.opaque.add(key)
         return b
 
     def nullable(self, n, depth=0):
